@@ -50,10 +50,15 @@ def showR (r : R (List Char)) : String :=
   | .ok t => "ok " ++ tohex t
   | .error e => "exc " ++ e.show
 
+/-- a name as it travels in the line protocol: verbatim when it is made of letters, digits and `_`, hex-encoded otherwise
+    (a segment "name" is the first three characters of its line, whatever they are) -/
+def safeName (n : String) : String :=
+  if n.toList.all (fun c => c.isAlphanum || c == '_') then n else "x" ++ tohex n.toList
+
 mutual
 partial def showNode : Msg.Node → String
-  | .seg s => s.name
-  | .grp n _ kids => n ++ "(" ++ showNodes kids ++ ")"
+  | .seg s => safeName s.name
+  | .grp n _ kids => safeName n ++ "(" ++ showNodes kids ++ ")"
 partial def showNodes : List Msg.Node → String
   | [] => ""
   | [k] => showNode k
